@@ -60,6 +60,10 @@ OBS = {
 }
 
 
+def run_for(scratch, tier, prop):
+    return run_unit(scratch, tier)
+
+
 def run_unit(scratch, tier):
     crate, meta = build(scratch)
     p = os.path.join(crate, "src/harness.rs")
